@@ -33,7 +33,7 @@ from .. import c11_protogen as pg
 from ..lib import cz, cb, cl, CN
 
 IMPORTS = "Model.Grpc"
-CALL_TIMEOUT = 8.0
+CALL_TIMEOUT = 12.0
 MAX_HANGS = 3
 
 TRUSTED = [
@@ -62,7 +62,7 @@ RULE = ("services: 1..5 methods, all four cardinalities (one full-matrix service
 
 # ids of the kwarg objects in the model
 KW_IDS = {"timeout": (11, 12), "deadline": (21, 22), "metadata": (31, 32)}
-T_STUB, T_CALL, D_STUB, D_CALL = 50.0, 70.0, 60.0, 80.0
+T_STUB, T_CALL, D_STUB, D_CALL = 100.0, 140.0, 120.0, 160.0
 MD_STUB = {"c11-src": "stub", "c11-stub": "1"}
 MD_CALL = [("c11-src", "call"), ("c11-call", "1")]
 
@@ -722,7 +722,7 @@ def oracle_call(rt, case, obs, snaps):
             if eff is None:
                 if remaining is not None:
                     why.append(f"server has a deadline ({remaining:.1f}s) though none was set")
-            elif remaining is None or abs(remaining - eff) > 3.0:
+            elif remaining is None or abs(remaining - eff) > 9.0:
                 why.append(f"server deadline has {remaining} s remaining, expected about {eff}")
     # ---- which handler ran, with what
     sc = case["scripts"].get(py)
@@ -756,11 +756,37 @@ def oracle_call(rt, case, obs, snaps):
 # ======================================================================================
 # run
 # ======================================================================================
+def corpus_bundles(ctx):
+    """regression inputs (corpus/C11*.json): witnesses of the known finding and of the fix; they run first"""
+    import glob
+
+    out = []
+    for n, path in enumerate(sorted(glob.glob(os.path.join(lib.VERIF, "corpus", "C11*.json")))):
+        d = json.load(open(path))
+        svcs = [pg.Svc(i, s["pkg"], s["name"], s["file"],
+                       [pg.Meth(m["name"], m["cs"], m["ss"], m["in"], m["out"]) for m in s["methods"]], collision=s.get("collision", False))
+                for i, s in enumerate(d["services"])]
+        out.append(pg.Bundle(f"c11c{os.getpid()}_{ctx.seed}_{n}", d["files"], svcs, {k: tuple(v) for k, v in d["types"].items()}))
+    return out
+
+
 def build_bundles(ctx):
     from betterproto.compile.naming import pythonize_method_name
 
     nb = 3 if not ctx.thorough else 12
     rts = []
+    for bundle in corpus_bundles(ctx):
+        rc, out, _ = pu.generate(ctx.work, bundle.files, bundle.root)
+        if rc != 0:
+            ctx.fail("oracle", "the plugin failed on a corpus service", input={"files": bundle.files, "output": out[-1500:]})
+            continue
+        for svc in bundle.services:
+            try:
+                rts.append(Rt(bundle, svc, ctx.work))
+                ctx.count("corpus_services")
+            except Exception as e:  # noqa
+                ctx.fail("oracle", f"corpus service does not import: {type(e).__name__}: {e}",
+                         cls="pyname-collision" if svc.collision else None, input={"files": bundle.files})
     for b in range(nb):
         root = f"c11g{os.getpid()}_{ctx.seed}_{b}"
         n = 7
@@ -929,6 +955,28 @@ def run(ctx):
             if why:
                 ctx.fail("oracle", "; ".join(why)[:900], cls=finding_class(rt, c), input=replay_input(rt, c, obs), feature=c["feature"])
         add(model_call_expr(rt, c, vals_snaps), expected_call_cv(rt, c, obs), ("call", rt, c, obs))
+
+    # ------------------------------------------------------------------ T1 again, on a reflection made now
+    # (coq/gen/C11Tables.v is a shared file that concurrent checks of other properties regenerate from
+    #  THEIR tree; this evaluation does not depend on it)
+    try:
+        from .. import gen_c11
+        text = gen_c11.generate()
+        body = text.split("\n", 3)[3]
+        pre = "Model.Grpc.\nModule C11Live.\n" + body + "\nEnd C11Live.\nDefinition c11_live_follows := tt"
+        out = lib.coq_eval(ctx, pre, "tables_ok_of C11Live.stub_sites C11Live.helper_sites C11Live.mapping_sites "
+                                     "C11Live.default_status C11Live.status_unimplemented C11Live.status_unknown "
+                                     "C11Live.probe_service C11Live.probe_stub_routes C11Live.probe_mapping_routes "
+                                     "C11Live.bare_service C11Live.bare_mapping_route")
+        ctx.cov["evaluations"] += 1
+        if not out.replace("\n", " ").strip().startswith("= true"):
+            ctx.fail("corr", "reflection of the probe service rendered by the live plugin disagrees with the model "
+                             "(helper chosen by a stub body / Cardinality of a helper or of a __mapping__ entry / default status / route strings)",
+                     no_input=True, theorem_or_correspondence="C11_tables (T1: tables_ok_of on the live reflection)",
+                     live_tables=body[:3000], coq_answer=out[-600:])
+    except BaseException as e:  # noqa
+        ctx.fail("corr", f"reflection of the probe service failed: {type(e).__name__}: {e}", no_input=True,
+                 theorem_or_correspondence="C11_tables (T1 reflection)", traceback=traceback.format_exc()[-1500:])
 
     # ------------------------------------------------------------------ correspondence inside Coq
     try:
